@@ -4,6 +4,7 @@ package main
 // clauses R1–R9.
 
 import (
+	"go/types"
 	"fmt"
 	"go/token"
 	"sort"
@@ -33,6 +34,19 @@ const (
 
 func runC01(c *Ctx) {
 	p := c.P
+	// "both directions in use at once from one reader and one writer goroutine": the only state the two
+	// goroutines share is the length/delay distributions (the writer samples, the reader re-seeds them)
+	if reset, sample := p.Func("common/probdist:(*WeightedDist).Reset"), p.Func("common/probdist:(*WeightedDist).Sample"); reset != nil && sample != nil {
+		reach := map[*ssa.Function]bool{}
+		for fn := range p.Reachable(reset) {
+			if p.inModule(fn) && relPkg(fn.Pkg.Pkg.Path()) == "common/probdist" {
+				reach[fn] = true
+			}
+		}
+		c12Locks(c, p, "R9", reset, sample, reach)
+	} else {
+		c.Obl("R9", "probdist", "WeightedDist.Reset and Sample exist").Undecide("not found")
+	}
 	c01Layout(c, p)
 	c01Surfacing(c, p, "R2")
 	if dec := p.Func("transports/obfs4/framing:(*Decoder).Decode"); dec != nil {
@@ -251,6 +265,66 @@ func c01Layout(c *Ctx, p *Prog) {
 		ob.Violate("%s", info.err)
 	} else {
 		ob.HoldNT("type=pkt[0], length=BigEndian.Uint16(pkt[1:]), payload=pkt[3:3+length], pkt=decoded[0:n] with n from Decode into decoded[:]")
+	}
+	// accept side: every packet the writer side (or another implementation) may legally produce is taken
+	ob = c.Obl("R1", "transports/obfs4:(*obfs4Conn).readPackets#accepts-well-formed", "no well-formed packet is rejected: the two length errors of the reader are unreachable for a decoded frame of 3 <= n <= 1427 bytes whose length field is <= n-3 (this includes the header-only packet n = 3 and a zero-length payload)")
+	if info.err != "" || info.dec == nil || info.length == nil {
+		ob.Undecide("reader shape not established")
+		return
+	}
+	var decLenV ssa.Value
+	for _, r := range *info.dec.Referrers() {
+		if ex, ok := r.(*ssa.Extract); ok && ex.Index == 0 {
+			decLenV = ex
+		}
+	}
+	if decLenV == nil {
+		ob.Undecide("the decoded length is not used")
+		return
+	}
+	bd := p.NewBounds()
+	bad = ""
+	nErr := 0
+	allInstrs(rp, func(in ssa.Instruction) {
+		// construction of InvalidPacketLengthError / InvalidPayloadLengthError values
+		var t types.Type
+		switch x := in.(type) {
+		case *ssa.ChangeType:
+			t = x.Type()
+		case *ssa.Convert:
+			t = x.Type()
+		case *ssa.MakeInterface:
+			t = x.X.Type()
+			if _, isC := x.X.(*ssa.Const); !isC {
+				return // counted at its conversion
+			}
+		default:
+			return
+		}
+		nt, ok := t.(*types.Named)
+		if !ok || nt.Obj().Pkg() == nil || !strings.HasSuffix(nt.Obj().Pkg().Path(), "transports/obfs4") {
+			return
+		}
+		if nt.Obj().Name() != "InvalidPacketLengthError" && nt.Obj().Name() != "InvalidPayloadLengthError" {
+			return
+		}
+		nErr++
+		okR, _ := bd.RefuteWith(rp, in.Block(), func(s *scope, pr *proof) {
+			d, l := s.lin(decLenV, pr), s.lin(info.length, pr)
+			pr.add(geC(d, 3), leC(d, 1427), geC(l, 0), le(l.Add(linConst(3)), d))
+		})
+		if !okR {
+			bad = "the " + nt.Obj().Name() + " at " + p.InstrPos(in) + " can be raised for a well-formed packet (3 <= n <= 1427, length <= n-3)"
+		}
+	})
+	if nErr == 0 && bad == "" {
+		ob.HoldNT("the reader raises no length error of its own in this tree (bounds are decided by the slice obligations)")
+		return
+	}
+	if bad != "" {
+		ob.Violate("%s", bad)
+	} else {
+		ob.HoldNT("%d length-error site(s), each unreachable for well-formed packets", nErr)
 	}
 }
 
